@@ -134,6 +134,112 @@ def run_refusals(params, known):
                 violations=out_v, known=kn, samples=[])
 
 
+def run_agent_api(params, known):
+    '''The agent-level D-Bus object (tcpcl.agent.Agent): every sequence of up to `depth` calls from
+    {listen, listen on the same port again, listen_stop, listen_stop of an unknown port, connect,
+    connect to a port nobody listens on, a peer connecting to the listener, get_connections,
+    shutdown, stop}, the system run to quiescence after each.  Every signal and return value must
+    fit its declared signature, failures must come back as D-Bus errors (never escape from a
+    callback), and get_connections must list exactly the contacts announced opened and not yet closed.'''
+    import itertools
+    from ..agent_world import AgentWorld, AGENT_PATH, AGENT_IFACE, X_ADDR
+    from .. import vnet
+    from ..world import Violation
+    menu = ('listen', 'listen-again', 'listen-stop', 'listen-stop-unknown', 'connect', 'connect-refused',
+            'peer-connects', 'get', 'shutdown', 'stop')
+    depth = params['depth']
+    (part, parts) = (params['part'], params['parts'])
+    violations = []
+    kinds = set()
+    count = 0
+    outcomes = set()
+
+    def viol(kind, sig, detail, case):
+        key = (kind, tuple(sorted(sig.items())))
+        if key in kinds:
+            return
+        kinds.add(key)
+        v = Violation(PROP, 'agent-api', kind, sig, '%r: %s' % (case, detail)).as_dict()
+        v['case'] = case
+        violations.append(v)
+    idx = -1
+    for n in range(1, depth + 1):
+        for seq in itertools.product(menu, repeat=n):
+            idx += 1
+            if idx % parts != part:
+                continue
+            count += 1
+            case = dict(calls=list(seq))
+            w = AgentWorld(dict(contacts=['out']))     # one outgoing contact to start with (process P0)
+            px = w.procs['X']
+            w.run_policy(w.proc_names())
+            results = []
+            stopped = False
+            for call in seq:
+                if call in ('listen', 'listen-again'):
+                    res = w.bus_call(px, AGENT_PATH, 'listen', X_ADDR, 4556, iface=AGENT_IFACE)
+                elif call == 'listen-stop':
+                    res = w.bus_call(px, AGENT_PATH, 'listen_stop', X_ADDR, 4556, iface=AGENT_IFACE)
+                elif call == 'listen-stop-unknown':
+                    res = w.bus_call(px, AGENT_PATH, 'listen_stop', X_ADDR, 4999, iface=AGENT_IFACE)
+                elif call == 'connect':
+                    # nobody reads at the other end: the contact stays in negotiation
+                    conn = vnet.StreamConn('cx%d' % len(w.conns), addr0=(X_ADDR, 42000 + len(w.conns)), addr1=('10.0.9.2', 4556))
+                    conn.sent_log = []
+                    w.conns.append(conn)
+                    w.net.targets[('10.0.9.2', 4556)] = conn
+                    res = w.bus_call(px, AGENT_PATH, 'connect', '10.0.9.2', 4556, iface=AGENT_IFACE)
+                elif call == 'connect-refused':
+                    res = w.bus_call(px, AGENT_PATH, 'connect', '10.0.8.2', 4556, iface=AGENT_IFACE)
+                elif call == 'peer-connects':
+                    lst = w.net.listeners.get((X_ADDR, 4556))
+                    if lst is not None:
+                        conn = vnet.StreamConn('cy%d' % len(w.conns), addr0=('10.0.7.2', 43000 + len(w.conns)), addr1=(X_ADDR, 4556))
+                        conn.sent_log = []
+                        w.conns.append(conn)
+                        lst._accept_q.append(conn)
+                    res = ('ok', None)
+                elif call == 'get':
+                    res = w.bus_call(px, AGENT_PATH, 'get_connections', iface=AGENT_IFACE)
+                elif call == 'shutdown':
+                    res = w.bus_call(px, AGENT_PATH, 'shutdown', iface=AGENT_IFACE)
+                else:
+                    res = w.bus_call(px, AGENT_PATH, 'stop', iface=AGENT_IFACE)
+                results.append(res[0] if res[0] == 'ok' else '%s:%s' % (res[0], res[1]))
+                w.collect(('user',))
+                try:
+                    w.run_policy(w.proc_names())
+                except Exception as err:
+                    viol('run-does-not-end', dict(call=call), str(err), case)
+                    break
+                if AGENT_PATH not in px.bus._objects:
+                    stopped = True
+                    break
+                got = w.bus_call(px, AGENT_PATH, 'get_connections', iface=AGENT_IFACE)
+                opened = [a[0] for (pn, pth, m, a) in w.sig.log if pn == 'X' and m == 'connection_opened']
+                closed = [a[0] for (pn, pth, m, a) in w.sig.log if pn == 'X' and m == 'connection_closed']
+                want = sorted(p for p in opened if p not in closed)
+                if got[0] != 'ok' or sorted(str(x) for x in got[1]) != want:
+                    viol('connection-list-differs-from-signals', dict(call=call), 'get_connections %r, opened %r, closed %r' % (got, opened, closed), case)
+            if w.sig.escaped:
+                viol('exception-escaped-callback', dict(exc=w.sig.escaped[-1][1]), '%s: %s' % (w.sig.escaped[-1][1], w.sig.escaped[-1][2]), case)
+            if w.sig.marshal_errors:
+                viol('signal-or-return-does-not-fit-signature', dict(), repr(w.sig.marshal_errors[-1]), case)
+            for (call, res) in zip(seq, results):
+                expect_error = call in ('listen-again', 'listen-stop-unknown', 'connect-refused')
+                if call == 'listen-again' and seq.index('listen-again') == 0 and 'listen' not in seq[:seq.index('listen-again')]:
+                    expect_error = False
+                if res.startswith('error') and 'DBus' not in res and 'dbus' not in res:
+                    viol('failure-not-reported-as-dbus-error', dict(call=call), res, case)
+            outcomes.add((tuple(results), stopped))
+    kn, out_v = [], []
+    for v in violations:
+        ent = known.match(v) if known is not None else None
+        (kn if ent else out_v).append(dict(v, entry=ent) if ent else v)
+    return dict(name=params['name'], evaluations=count, nontrivial_keys=['%s:%r' % (params['name'], o) for o in sorted(outcomes, key=repr)],
+                violations=out_v, known=kn, samples=[])
+
+
 def replay_case(body, verbose=False):
     case = body['case']
     print('peer reactions %r to an endpoint (%s) with bundles %r' % (case['reactions'], case['role'], case['bundles']))
@@ -166,6 +272,8 @@ def scenarios(tier):
     out.append(_scen('A1+term|B:pop', {'A': [s1, term], 'B': [pop1]}, weight=30))
     out.append(_scen('A1|B1+pop', {'A': [s1, pop1], 'B': [s1b]}, weight=40))
     out.append(_scen('len0|B:pop', {'A': [('send', '')], 'B': [pop1]}, weight=5))
+    out.append(_scen('ipv6/A1|B:pop', {'A': [s1], 'B': [pop1]}, weight=8, ipv6=True))
+    out.append(_scen('A5|B:term', {'A': [s5], 'B': [term]}, weight=30))
     out.append(_scen('A1+A1+term', {'A': [s1, s1b, term], 'B': []}, weight=40))
     depth = 4 if tier == 'thorough' else 3
     for role in ('passive', 'active'):
@@ -173,6 +281,12 @@ def scenarios(tier):
             nm = 'refusals-%s-%s' % (role, label)
             out.append(dict(name=nm, kind='enum', runner='run_refusals',
                             params=dict(name=nm, role=role, bundles=bundles, depth=depth), weight=15))
+    adepth = 3
+    aparts = 4 if tier == 'quick' else 8
+    for part in range(aparts):
+        nm = 'agent-api-%d/%d' % (part + 1, aparts)
+        out.append(dict(name=nm, kind='enum', runner='run_agent_api',
+                        params=dict(name=nm, depth=adepth if tier == 'quick' else 4, part=part, parts=aparts), weight=15))
     try:
         from .c13 import c18_udp_scenarios
         out.extend(c18_udp_scenarios(tier))
@@ -191,6 +305,7 @@ ASSUMPTIONS = [
     'D-Bus marshalling judged by a rule table re-stated from probes of real dbus-python 1.3.2 (self-test in setup)',
     'method calls are dispatched between event-loop iterations; queries are evaluated in every explored state',
     'workloads of at most two bundles per direction',
+    'agent object (tcpcl.agent.Agent): every sequence of up to 3 (thorough 4) calls from a menu of ten (listen, connect, peer connecting, listen_stop, get_connections, shutdown, stop and their failing variants), run to quiescence after each',
     'scripted-peer part: every sequence of up to 3 (thorough 4) reactions from {acknowledge next segment, refuse transfer 1, 2 or an unknown one, repeat the last acknowledgement} against one, two-segment and two queued bundles, endpoint active and passive',
 ]
 
